@@ -236,30 +236,71 @@ Definition rwith_opt (w : option withclause) : script :=
 Definition rlimit (kw : string) (v : option value) : script :=
   match v with Some x => wss kw ++ [WVal x] | None => [] end.
 
-Definition rselect (s : select) : script :=
+(* The statement renderers are driven by an explicit clause order: a statement is the
+   concatenation of its clause scripts in `*_render_order` (the order in which the code emits them). *)
+Inductive ckind :=
+| KWith | KHead | KFrom | KJoins | KWhere | KGroupBy | KHaving | KCompound | KOrderBy | KLimit | KOffset
+| KLock | KWindow                                   (* SELECT *)
+| KSet | KUpdJoin | KUpdFrom | KReturning            (* UPDATE / DELETE *)
+| KSource | KOnConflict.                             (* INSERT *)
+
+Definition sel_render_order : list ckind :=
+  [KWith; KHead; KFrom; KJoins; KWhere; KGroupBy; KHaving; KCompound; KOrderBy; KLimit; KOffset; KLock; KWindow].
+
+Definition sel_clause (s : select) (k : ckind) : script :=
   match s with
   | Select distinct selects from joins where_ groups having unions orders limit offset lock window
            with_ sample hints =>
-      rwith_opt with_ ++ wss "SELECT " ++
-      (match distinct with Some d => rdistinct d ++ wss " " | None => [] end) ++
-      sep_by comma (map rselexpr selects) ++
-      (match from with
-       | [] => []
-       | _ => wss " FROM " ++ sep_by comma (map rtref from) ++ rhints hints ++ rsample sample
-       end) ++
-      flat_map (fun j => wss " " ++ rjoin j) joins ++
-      rholder "WHERE" where_ ++
-      (match groups with [] => [] | _ => wss " GROUP BY " ++ sep_by comma (map rex groups) end) ++
-      rholder "HAVING" having ++
-      flat_map runion unions ++
-      rorders orders ++
-      rlimit " LIMIT " limit ++ rlimit " OFFSET " offset ++
-      (match lock with Some l => wss " " ++ rlock l | None => [] end) ++
-      (match window with
-       | Some (name, w) => wss " WINDOW " ++ [WId name] ++ wss " AS " ++ rwindow w
-       | None => []
-       end)
+      match k with
+      | KWith => rwith_opt with_
+      | KHead => wss "SELECT " ++
+                 (match distinct with Some d => rdistinct d ++ wss " " | None => [] end) ++
+                 sep_by comma (map rselexpr selects)
+      | KFrom => match from with
+                 | [] => []
+                 | _ => wss " FROM " ++ sep_by comma (map rtref from) ++ rhints hints ++ rsample sample
+                 end
+      | KJoins => flat_map (fun j => wss " " ++ rjoin j) joins
+      | KWhere => rholder "WHERE" where_
+      | KGroupBy => match groups with [] => [] | _ => wss " GROUP BY " ++ sep_by comma (map rex groups) end
+      | KHaving => rholder "HAVING" having
+      | KCompound => flat_map runion unions
+      | KOrderBy => rorders orders
+      | KLimit => rlimit " LIMIT " limit
+      | KOffset => rlimit " OFFSET " offset
+      | KLock => match lock with Some l => wss " " ++ rlock l | None => [] end
+      | KWindow => match window with
+                   | Some (name, w) => wss " WINDOW " ++ [WId name] ++ wss " AS " ++ rwindow w
+                   | None => []
+                   end
+      | _ => []
+      end
   end.
+
+(* was the clause given by the builder calls *)
+Definition sel_present (s : select) (k : ckind) : bool :=
+  match s with
+  | Select distinct selects from joins where_ groups having unions orders limit offset lock window
+           with_ sample hints =>
+      match k with
+      | KWith => match with_ with Some _ => true | None => false end
+      | KHead => true
+      | KFrom => negb (is_nil from)
+      | KJoins => negb (is_nil joins)
+      | KWhere => match where_ with HEmpty => false | _ => true end
+      | KGroupBy => negb (is_nil groups)
+      | KHaving => match having with HEmpty => false | _ => true end
+      | KCompound => negb (is_nil unions)
+      | KOrderBy => negb (is_nil orders)
+      | KLimit => match limit with Some _ => true | None => false end
+      | KOffset => match offset with Some _ => true | None => false end
+      | KLock => match lock with Some _ => true | None => false end
+      | KWindow => match window with Some _ => true | None => false end
+      | _ => false
+      end
+  end.
+
+Definition rselect (s : select) : script := flat_map (sel_clause s) sel_render_order.
 
 Definition rreturning (r : option returning) : script :=
   match b, r with
@@ -321,61 +362,85 @@ Definition rdefault_rows (n : N) : script :=
          sep_by comma (repeat (match b with MySQL => wss "()" | _ => wss "(DEFAULT)" end) (N.to_nat n))
   end.
 
-Definition rinsert (i : insert) : script :=
+Definition ins_render_order : list ckind := [KWith; KHead; KSource; KOnConflict; KReturning].
+Definition ins_clause (i : insert) (k : ckind) : script :=
   match i with
   | Insert replace table columns source on_conflict returning default_values with_ =>
-      rwith_opt with_ ++ (if replace then wss "REPLACE" else wss "INSERT") ++
-      (match table with Some t => wss " INTO " ++ rtref t | None => [] end) ++
-      (match default_values, columns, source with
-       | Some n, [], None => wss " " ++ rdefault_rows n
-       | _, _, _ =>
-           wss " " ++ wss "(" ++ sep_by comma (map (fun c => [WId c]) columns) ++ wss ")" ++
-           (match source with
-            | None => []
-            | Some (ISValues rows) =>
-                wss " " ++ wss "VALUES " ++
-                sep_by comma (map (fun row : list (expr query) =>
-                                     wss "(" ++ sep_by comma (map rex row) ++ wss ")") rows)
-            | Some (ISSelect s) => wss " " ++ rq (QSelect s)
-            end)
-       end) ++
-      ronconflict on_conflict ++ rreturning returning
+      match k with
+      | KWith => rwith_opt with_
+      | KHead => (if replace then wss "REPLACE" else wss "INSERT") ++
+                 (match table with Some t => wss " INTO " ++ rtref t | None => [] end)
+      | KSource =>
+          match default_values, columns, source with
+          | Some n, [], None => wss " " ++ rdefault_rows n
+          | _, _, _ =>
+              wss " " ++ wss "(" ++ sep_by comma (map (fun c => [WId c]) columns) ++ wss ")" ++
+              (match source with
+               | None => []
+               | Some (ISValues rows) =>
+                   wss " " ++ wss "VALUES " ++
+                   sep_by comma (map (fun row : list (expr query) =>
+                                        wss "(" ++ sep_by comma (map rex row) ++ wss ")") rows)
+               | Some (ISSelect s) => wss " " ++ rq (QSelect s)
+               end)
+          end
+      | KOnConflict => ronconflict on_conflict
+      | KReturning => rreturning returning
+      | _ => []
+      end
   end.
+Definition rinsert (i : insert) : script := flat_map (ins_clause i) ins_render_order.
 
-Definition rupdate (u : update) : script :=
+Definition upd_render_order : list ckind :=
+  [KWith; KHead; KUpdJoin; KSet; KUpdFrom; KWhere; KReturning; KOrderBy; KLimit].
+Definition upd_clause (u : update) (k : ckind) : script :=
   match u with
   | Update table from values where_ orders limit returning with_ =>
-      rwith_opt with_ ++ wss "UPDATE " ++
-      (match table with Some t => rtref t | None => [] end) ++
-      (match b, from with
-       | MySQL, f0 :: _ => wss " JOIN " ++ rtref f0 ++ rholder "ON" where_
-       | _, _ => []
-       end) ++
-      wss " SET " ++
-      sep_by comma (map (fun cv : str * expr query =>
-        (match b, from, table with
-         | MySQL, _ :: _, Some (TPlain (TRTable t)) => [WId t; ws "."; WId (fst cv)]
-         | _, _, _ => [WId (fst cv)]
-         end) ++ wss " = " ++ rex (snd cv)) values) ++
-      (match b, from with
-       | MySQL, _ => []
-       | _, [] => []
-       | _, _ => wss " FROM " ++ sep_by comma (map rtref from)
-       end) ++
-      (match b, from with
-       | MySQL, _ :: _ => []
-       | _, _ => rholder "WHERE" where_
-       end) ++
-      rorders orders ++ rlimit " LIMIT " limit ++ rreturning returning
+      match k with
+      | KWith => rwith_opt with_
+      | KHead => wss "UPDATE " ++ (match table with Some t => rtref t | None => [] end)
+      | KUpdJoin => match b, from with
+                    | MySQL, f0 :: _ => wss " JOIN " ++ rtref f0 ++ rholder "ON" where_
+                    | _, _ => []
+                    end
+      | KSet => wss " SET " ++
+                sep_by comma (map (fun cv : str * expr query =>
+                  (match b, from, table with
+                   | MySQL, _ :: _, Some (TPlain (TRTable t)) => [WId t; ws "."; WId (fst cv)]
+                   | _, _, _ => [WId (fst cv)]
+                   end) ++ wss " = " ++ rex (snd cv)) values)
+      | KUpdFrom => match b, from with
+                    | MySQL, _ => []
+                    | _, [] => []
+                    | _, _ => wss " FROM " ++ sep_by comma (map rtref from)
+                    end
+      | KWhere => match b, from with
+                  | MySQL, _ :: _ => []
+                  | _, _ => rholder "WHERE" where_
+                  end
+      | KReturning => rreturning returning
+      | KOrderBy => rorders orders
+      | KLimit => rlimit " LIMIT " limit
+      | _ => []
+      end
   end.
+Definition rupdate (u : update) : script := flat_map (upd_clause u) upd_render_order.
 
-Definition rdelete (d : delete) : script :=
+Definition del_render_order : list ckind := [KWith; KHead; KWhere; KReturning; KOrderBy; KLimit].
+Definition del_clause (d : delete) (k : ckind) : script :=
   match d with
   | Delete table where_ orders limit returning with_ =>
-      rwith_opt with_ ++ wss "DELETE " ++
-      (match table with Some t => wss "FROM " ++ rtref t | None => [] end) ++
-      rholder "WHERE" where_ ++ rorders orders ++ rlimit " LIMIT " limit ++ rreturning returning
+      match k with
+      | KWith => rwith_opt with_
+      | KHead => wss "DELETE " ++ (match table with Some t => wss "FROM " ++ rtref t | None => [] end)
+      | KWhere => rholder "WHERE" where_
+      | KReturning => rreturning returning
+      | KOrderBy => rorders orders
+      | KLimit => rlimit " LIMIT " limit
+      | _ => []
+      end
   end.
+Definition rdelete (d : delete) : script := flat_map (del_clause d) del_render_order.
 
 Definition rquery_gen (q : query) : script :=
   match q with
